@@ -402,17 +402,27 @@ def o_meaning(spec):
     inconclusive = 0
     for i, (o, o2) in enumerate(zip(c.operations, c2.operations)):
         def mats():
-            a = o.gate.matrix.subs(vals, simultaneous=True) if vals else o.gate.matrix
+            try:
+                a = o.gate.matrix.subs(vals, simultaneous=True) if vals else o.gate.matrix
+                a = ref.npm(sympy.N(a, 20))
+            except Exception:  # noqa: BLE001 - the original gate has no matrix here (e.g. inverse of a singular custom matrix): nothing to compare
+                return None, None
             b = o2.gate.matrix.subs(vals, simultaneous=True) if vals else o2.gate.matrix
-            return ref.npm(sympy.N(a, 20)), ref.npm(sympy.N(b, 20))
+            return a, ref.npm(sympy.N(b, 20))
         if _risky(spec["ops"][i]):
             kind, out = forked(mats, 6.0)
             if kind != "ok":
                 inconclusive += 1
                 continue
             A, B = out
+            if A is None:
+                inconclusive += 1
+                continue
         else:
-            A, B = must(mats, "gate matrix")
+            A, B = must(mats, "gate matrix of the reloaded circuit")
+        if A is None:
+            inconclusive += 1
+            continue
         if not (np.all(np.isfinite(A)) and np.all(np.isfinite(B))):
             inconclusive += 1
             continue
